@@ -5,7 +5,8 @@ compared expressions, computed over a universe of code points (U+0000..U+2FFF
 plus a few astral ones) and represented by one character each; languages range
 over strings of *any* length.  Supported: literals, classes, categories, `.`,
 repeats (lazy == greedy for language purposes), groups, alternation, `^`, `$`.
-Lookarounds / back-references / IGNORECASE raise AnalysisError (exit 2).
+IGNORECASE is modelled on predicates (a character matches when it, its lower-case or its upper-case form does).
+Lookarounds / back-references raise AnalysisError (exit 2).
 """
 from __future__ import annotations
 
@@ -31,9 +32,19 @@ _CAT = {
 }
 
 
+def _ic(fn: Callable[[str], bool]) -> Callable[[str], bool]:
+    """Case-insensitive version of a character predicate (re.IGNORECASE on literals, ranges and classes)."""
+    def g(ch: str) -> bool:
+        if fn(ch):
+            return True
+        for v in (ch.lower(), ch.upper()):
+            if len(v) == 1 and v != ch and fn(v):
+                return True
+        return False
+    return g
+
+
 def parse(pattern: str, flags: int = 0):
-    if flags & re.IGNORECASE:
-        raise AnalysisError("IGNORECASE patterns are not supported by the language engine")
     try:
         return sp.parse(pattern, flags)
     except re.error as err:
@@ -76,6 +87,8 @@ def _preds_of(tree, out: list, dotall: bool) -> None:
 
 def _pred_fn(p) -> Callable[[str], bool]:
     kind, v = p
+    if kind == "ic":
+        return _ic(_pred_fn(v))
     if kind == "lit":
         return lambda ch, v=v: ord(ch) == v
     if kind == "range":
@@ -103,7 +116,11 @@ class Alphabet:
     def __init__(self, patterns: Iterable[tuple[str, int]], extra: str = "", exclude: str = ""):
         preds: list = []
         for pat, flags in patterns:
-            _preds_of(parse(pat, flags), preds, bool(flags & re.DOTALL))
+            mine: list = []
+            _preds_of(parse(pat, flags), mine, bool(flags & re.DOTALL))
+            preds.extend(mine)
+            if flags & re.IGNORECASE:
+                preds.extend(("ic", m) for m in mine)
         for ch in extra:
             preds.append(("lit", ord(ch)))
         uniq = []
@@ -163,8 +180,16 @@ class NFA:
             cur = b
         return cur_in, cur
 
-    def _cls(self, fn: Callable[[str], bool]) -> tuple[int, int]:
+    ignorecase = False
+
+    def _cls(self, fn: Callable[[str], bool], negated_of: Optional[Callable[[str], bool]] = None) -> tuple[int, int]:
         a, b = self.new(), self.new()
+        if self.ignorecase:
+            if negated_of is not None:
+                pos = _ic(negated_of)
+                fn = lambda ch, pos=pos: not pos(ch)  # noqa: E731
+            else:
+                fn = _ic(fn)
         self.trans[a].append((self.alpha.where(fn), b))
         return a, b
 
@@ -172,7 +197,7 @@ class NFA:
         if op is sc.LITERAL:
             return self._cls(lambda ch: ord(ch) == av)
         if op is sc.NOT_LITERAL:
-            return self._cls(lambda ch: ord(ch) != av)
+            return self._cls(lambda ch: ord(ch) != av, negated_of=lambda ch: ord(ch) == av)
         if op is sc.ANY:
             return self._cls((lambda ch: True) if dotall else (lambda ch: ch != "\n"))
         if op is sc.IN:
@@ -191,7 +216,7 @@ class NFA:
                 else:
                     raise AnalysisError(f"unsupported class item {iop}")
             if neg:
-                return self._cls(lambda ch: not any(f(ch) for f in fns))
+                return self._cls(lambda ch: not any(f(ch) for f in fns), negated_of=lambda ch: any(f(ch) for f in fns))
             return self._cls(lambda ch: any(f(ch) for f in fns))
         if op is sc.BRANCH:
             a, b = self.new(), self.new()
@@ -256,6 +281,7 @@ class Lang:
         """mode: 'full' (fullmatch), 'match' (prefix match), 'search'."""
         tree = parse(pattern, flags)
         nfa = NFA(alpha)
+        nfa.ignorecase = bool(flags & re.IGNORECASE)
         a, b = nfa.build(tree, bool(flags & re.DOTALL))
         if mode == "search":
             pre = nfa.new()
